@@ -220,12 +220,47 @@ def leaves(decl, prefix=""):
             yield prefix + name, node
 
 
-def build_parser(decl):
+def add_leaves(p, decl):
+    for key, node in leaves(decl):
+        kw = {"nargs": node["nargs"]} if node.get("nargs") else {}
+        p.add_argument("--" + key, type=ty(node["ty"]), default=dec(node["def"]), **kw)
+
+
+def build_parser(decl, case=None):
+    """top-level parser; a declaration node marked "sub" is a subcommand (its own parser with its own --cfg), next to a
+    second subcommand `other` so that there is a choice to be made"""
+    case = case or {}
     p = ArgumentParser(exit_on_error=False, default_env=False)
     p.add_argument("--cfg", action="config")
-    for key, node in leaves(decl):
-        p.add_argument("--" + key, type=ty(node["ty"]), default=dec(node["def"]))
+    add_leaves(p, [[n, node] for n, node in decl if not node.get("sub")])
+    subs = [[n, node] for n, node in decl if node.get("sub")]
+    p._jv_subparsers = {}
+    if subs:
+        sc = p.add_subcommands(required=case.get("sub_required", True))
+        for n, node in subs:
+            sp = ArgumentParser(exit_on_error=False, default_env=False)
+            sp.add_argument("--cfg", action="config")
+            add_leaves(sp, node["grp"])
+            sc.add_subcommand(n, sp)
+            p._jv_subparsers[n] = sp
+        other = ArgumentParser(exit_on_error=False, default_env=False)
+        other.add_argument("--z", type=int, default=0)
+        sc.add_subcommand("other", other)
+    if case.get("header"):          # comment lines put in front of every YAML dump
+        for q in [p] + list(p._jv_subparsers.values()):
+            q.dump_header = list(case["header"])
     return p
+
+
+def all_defaults(parser, decl):
+    """declared defaults in force, leaf by declared leaf (a subcommand's leaves: from its own parser)"""
+    top = parser.get_defaults()
+    subd = {n: sp.get_defaults() for n, sp in parser._jv_subparsers.items()}
+    out = []
+    for key, _ in leaves(decl):
+        head, _, rest = key.partition(".")
+        out.append([key, enc(subd[head][rest] if head in subd else top[key])])
+    return out
 
 
 MISSING = {"$absent": True}
@@ -251,10 +286,10 @@ def flatten_along(decl, data, prefix=""):
     return flat, extra
 
 
-def flat_cfg(cfg, decl):
+def flat_cfg(cfg, decl, sub=None):
     """the configuration leaf by declared leaf (a dataclass-typed value is a Namespace INSIDE a leaf, not a group)"""
     flat, extra = flatten_along(decl, ns_dict(strip_meta(cfg)))
-    extra = [k for k in extra if k != "cfg"]
+    extra = [k for k in extra if k != "cfg" and not k.endswith(".cfg") and not (k == "subcommand" and cfg.get("subcommand") == sub)]
     return sorted(flat, key=lambda kv: kv[0]) + [["<unexpected>." + k, None] for k in extra]
 
 
@@ -330,7 +365,7 @@ def run_case(case, scratch):
         return orig_duf(parser, data, fmt)
 
     try:
-        parser = build_parser(decl)
+        parser = build_parser(decl, case)
     except Exception as e:
         return {"status": "build:" + err_kind(e), "msg": str(e)[:200]}
     # ---- what happened to this parser object before (the answers must not depend on it)
@@ -349,10 +384,14 @@ def run_case(case, scratch):
         return {"status": "rejected", "msg": str(e)[:200]}
     except Exception as e:
         return {"status": "crash0:" + err_kind(e), "msg": str(e)[:200]}
-    out["cfg0"] = flat_cfg(cfg0, decl)
+    sub = case.get("sub")
+    sub0 = cfg0.get("subcommand") if sub else None      # the subcommand the accepted configuration chose (None: none)
+    out["sub_chosen"] = sub0
+    out["cfg0"] = flat_cfg(cfg0, decl, sub0)
     dflt = parser.get_defaults()        # what a missing key is given, and what skip_default compares with
-    out["defs"] = [[key, enc(dflt[key])] for key, _ in leaves(decl)]
-    out["types"] = [[key, untype(ty(node["ty"]))] for key, node in leaves(decl)]
+    out["defs"] = all_defaults(parser, decl)
+    # a leaf with nargs='+' holds a list of values of its type
+    out["types"] = [[key, ["list", untype(ty(node["ty"]))] if node.get("nargs") else untype(ty(node["ty"]))] for key, node in leaves(decl)]
     # ---- serialise
     kind = variant["kind"]
     fmt = variant.get("format", "yaml")
@@ -373,8 +412,9 @@ def run_case(case, scratch):
             flags = variant.get("flags", "")
             buf = io.StringIO()
             try:
-                with contextlib.redirect_stdout(buf):
-                    parser.parse_args(list(case["argv"]) + ["--print_config" + ("=" + flags if flags else "")])
+                pc = "--print_config" + ("=" + flags if flags else "")
+                with contextlib.redirect_stdout(buf):       # pc_at: inside the subcommand (its part only) or before it
+                    parser.parse_args([pc] + list(case["argv"]) if variant.get("pc_at") == "top" else list(case["argv"]) + [pc])
                 return {"status": "crash1:print_config did not exit"}
             except SystemExit as e:
                 if e.code not in (0, None):
@@ -391,10 +431,13 @@ def run_case(case, scratch):
     out["text"] = text
     if kind != "print_config":      # the very object that was handed to dump / save, looked at again
         try:
-            out["cfg0_after"] = flat_cfg(cfg0, decl)
+            out["cfg0_after"] = flat_cfg(cfg0, decl, sub0)
         except Exception as e:
             out["cfg0_after"] = {"$err": err_kind(e)}
     data = captured[-1] if captured else None
+    in_sub = bool(kind == "print_config" and sub and variant.get("pc_at") != "top")     # the subcommand's part only
+    if in_sub and data is not None:
+        data = {sub: data}
     out["dumped"], out["dumped_extra"] = flatten_along(decl, data)
     strs, floats = set(), set()
     collect(data, strs, floats)
@@ -403,6 +446,8 @@ def run_case(case, scratch):
         rel = ld.yaml_load(text)
         if rel is None:
             rel = {}
+        if in_sub:
+            rel = {sub: rel}
         out["reloaded"], out["reloaded_extra"] = flatten_along(decl, rel)
     except Exception as e:
         out["reloaded"], out["reloaded_extra"] = {"$err": err_kind(e)}, []
@@ -413,8 +458,8 @@ def run_case(case, scratch):
         elif kind == "save":
             cfg1 = parser.parse_path(path)
         else:
-            cfg1 = parser.parse_args(["--cfg", path])
-        out["cfg1"] = flat_cfg(cfg1, decl)
+            cfg1 = parser.parse_args([sub, "--cfg", path] if in_sub else ["--cfg", path])
+        out["cfg1"] = flat_cfg(cfg1, decl, sub0)
     except (jsonargparse.ArgumentError, SystemExit) as e:
         out["cfg1"] = {"$err": "rejected", "msg": str(e)[:200]}
     except Exception as e:
@@ -426,6 +471,9 @@ def run_case(case, scratch):
         pass
     for _, v in cfg0.items():
         collect(v, strs, set())
+    for sp in parser._jv_subparsers.values():
+        for _, v in sp.get_defaults().items():
+            collect(v, strs, set())
     for _, v in dflt.items():            # the model serialises the declared defaults too (skip_default, class 8)
         collect(v, strs, set())
     so = []
